@@ -5,7 +5,8 @@
    KVM/Coherent.v is the store invariant proved by the write path (KVW). *)
 From NR Require Import Lib.Base Lib.Nip01 KVM.Engine KVM.Keys KVM.Scan KVM.ScanSpec KVM.Order KVM.Coherent
   KVM.Plan KVM.Match KVM.Exec KVM.Spec KVM.Proofs_Scan KVM.Proofs_Blocks KVM.Proofs_ScanTop KVM.Proofs_Coherent
-  KVM.Proofs_Match KVM.Proofs_Exec KVM.Proofs_Hit KVM.Proofs_Const KVM.Thm_C01 KVM.Thm_C02 KVM.Thm_C11 KVM.Thm_C12.
+  KVM.Proofs_Match KVM.Proofs_Exec KVM.Proofs_Hit KVM.Proofs_Const KVM.Thm_C01 KVM.Thm_C02 KVM.Thm_C11 KVM.Thm_C12
+  KVM.Proofs_HexOrder KVM.Check KVM.Examples.
 From NR Require Gen.KVConst.
 Open Scope list_scope. Open Scope Z_scope.
 
@@ -73,6 +74,15 @@ Theorem C02_kv_at_most_once_per_filter : forall dl mx d fs e,
 Proof. exact C02_kv_at_most. Qed.
 Print Assumptions C02_kv_at_most_once_per_filter.
 
+Theorem C02_kv_req_complete_partial : forall dl mx d fs f e,
+  Coherent d -> (forall x, stored d x -> tags_ok x) -> In f (firstn maximum_plans fs) -> wf_filter f -> ids_desc f ->
+  range_scan_refused f = false ->
+  (forall n, p_limit (mk_plan dl mx f) = Some n -> at_most d (may_match f) n) ->
+  stored d e -> must_match f e = true -> delegator_only_match f e = false ->
+  In e (answer_kv dl mx d fs).
+Proof. exact C02_kv_req_at_least_once. Qed.
+Print Assumptions C02_kv_req_complete_partial.
+
 (* the two guards are genuinely needed (open findings F07 and "range scan refused") *)
 Theorem C02_kv_refuted_delegator : exists f e,
   must_match f e = true /\ delegator_only_match f e = true /\ residual (plan_items f) e = false.
@@ -94,6 +104,13 @@ Proof.
   vm_compute. auto.
 Qed.
 Print Assumptions C02_kv_refuted_range_scan.
+
+(* the hypothesis ids_desc follows from what model_validate does to 64-digit ids (lower case, sorted descending, deduplicated) *)
+Theorem KVM_ids_desc_of_sorted : forall f,
+  (forall l, f_ids f = Some l -> Forall (fun v => hex64 v = true) l /\ Sorted.StronglySorted (fun a b => lex_cmp b a = Lt) l) ->
+  ids_desc f.
+Proof. exact ids_desc_of_sorted. Qed.
+Print Assumptions KVM_ids_desc_of_sorted.
 
 (* ===== C11-kv ===== *)
 Theorem C11_kv_answer_exact : forall dl mx d f p,
@@ -185,7 +202,58 @@ Proof.
 Qed.
 Print Assumptions KVM_constants.
 
-(* ===== non-vacuity ===== *)
+(* ===== refutations at store level (open findings F16 multi-value and F07) ===== *)
+Theorem C12_kv_refuted : exists d f p x y,
+  Coherent d /\ wf_filter f /\ plan_one None (Some 5) f = Some p /\ multi_match_filter f = true /\
+  stored d x /\ must_match f x = true /\ In y (execute_one_plan d p) /\ ~ In x (execute_one_plan d p) /\
+  w_created y < w_created x.
+Proof. exact C12_kv_refuted_multi_value. Qed.
+Print Assumptions C12_kv_refuted.
+
+Theorem C02_kv_refuted : exists d f p e,
+  Coherent d /\ wf_filter f /\ plan_one None (Some 5) f = Some p /\ at_most d (may_match f) 5 /\
+  stored d e /\ must_match f e = true /\ ~ In e (execute_one_plan d p).
+Proof. exact C02_kv_refuted_delegator_store. Qed.
+Print Assumptions C02_kv_refuted.
+
+(* a limit of at least the number of stored events never truncates *)
+Theorem KVM_at_most_total : forall d P n, Z.of_nat (length (stored_events d)) <= n -> at_most d P n.
+Proof. exact at_most_total. Qed.
+Print Assumptions KVM_at_most_total.
+
+(* the hypotheses floor_ok and Shaped of scanner_correct cannot be dropped *)
+Example KVM_scanner_needs_floor :
+  sortedb ks_nofloor = true /\ In tombstone ks_nofloor /\
+  index_scanner ks_nofloor IxTags [MStrStr (pys "t") [97; 98; 0; 1]%N; MStrStr (pys "t") (pys "ab")] None None (fun _ => true) = SOk [id32 7] /\
+  scan_spec ks_nofloor IxTags [MStrStr (pys "t") [97; 98; 0; 1]%N; MStrStr (pys "t") (pys "ab")] None None (fun _ => true) = SOk [id32 7; id32 8].
+Proof. exact scanner_needs_floor. Qed.
+Example KVM_scanner_needs_shape :
+  sortedb ks_unshaped = true /\
+  index_scanner ks_unshaped IxKinds [MInt 1] None None (fun _ => true) = SOk [id32 7] /\
+  scan_spec ks_unshaped IxKinds [MInt 1] None None (fun _ => true) = SOk [].
+Proof. exact scanner_needs_shape. Qed.
+
+(* ===== non-vacuity: a concrete coherent store with four events (one delegated), and the model on it ===== *)
+Example KVM_store_coherent : Coherent ex_store /\ (forall e, stored ex_store e -> tags_ok e) /\ length (stored_events ex_store) = 4%nat.
+Proof. split; [exact ex_coherent|]. split; [exact ex_tags_ok|exact ex_size]. Qed.
+Print Assumptions KVM_store_coherent.
+Example KVM_single_index : exists p, plan_one None (Some 5) xf_k7 = Some p /\ execute_one_plan ex_store p = [ev4; ev3] /\ single_block_plan p.
+Proof. exact ex_k7. Qed.
+Example KVM_single_index_hypotheses : wf_filter xf_k7 /\ ids_desc xf_k7 /\ range_scan_refused xf_k7 = false /\
+  at_most ex_store (may_match xf_k7) 5 /\ must_match xf_k7 ev3 = true /\ delegator_only_match xf_k7 ev3 = false.
+Proof. exact ex_k7_hypotheses. Qed.
+Example KVM_id_index : exists p, plan_one None (Some 5) xf_id = Some p /\ map w_id (execute_one_plan ex_store p) = [hx 51; hx 49].
+Proof. exact ex_ids. Qed.
+Example KVM_id_index_desc : ids_desc xf_id.
+Proof. exact ex_ids_desc. Qed.
+Example KVM_multi_index : exists p st, plan_one None (Some 5) xf_multi = Some p /\ p_index p = PMulti st /\ length st = 2%nat /\
+  execute_one_plan ex_store p = [ev3].
+Proof. exact ex_multi. Qed.
+Example KVM_range_scan : exists p, plan_one None (Some 5) xf_since = Some p /\ p_index p = PSingle IxCreated [] /\
+  map w_created (execute_one_plan ex_store p) = [1011; 1010].
+Proof. exact ex_range. Qed.
+Print Assumptions KVM_range_scan.
+
 Example scanner_empty_db :
   index_scanner [] IxKinds [MInt 1] None None (fun _ => true) = SOk [].
 Proof. vm_compute. reflexivity. Qed.
